@@ -852,6 +852,65 @@ theorem sql_tree_kleene (Γ : List BTy) (u : UTree) (t : TTree) (bt : BTy) (h : 
     exact hrow n cty hb (by rw [this, hn])
   rw [tree_kleene (List.range Γ.length) tris outer souter (by simp [hlen]) t h2 h3 (h4 _ hconf), h5, henv]
 
+/-! ## What the typechecker rejects (finding `null-typed-operand-rejected`) -/
+
+/-- the SQL-level reading "every boolean expression over the columns has a value": the typechecker accepts it -/
+def StatementSQL : Prop :=
+  ∀ (Γ : List BTy) (u : UTree), u.bound Γ.length = true → (typecheckU Γ u).isSome = true
+
+/-- **refuted**: `NOT NULL` is rejected ("unknown function: not(NULL)") -/
+theorem C11_sql_refuted : ¬ StatementSQL := by
+  intro h
+  have := h [] (.not (.const none)) rfl
+  exact absurd this (by decide)
+
+/-- **partial**: that is the only rejection — an expression over the columns without a `NOT` over a NULL-typed
+    operand typechecks, with the type SQL gives it (and then `sql_tree_kleene` gives its value) -/
+theorem C11_sql_partial (Γ : List BTy) (u : UTree) (hb : u.bound Γ.length = true)
+    (hn : u.notOverNull Γ = false) : ∃ t, typecheckU Γ u = some (t, u.sqlType Γ) := by
+  induction u with
+  | const c => exact ⟨_, rfl⟩
+  | var n =>
+    simp only [UTree.bound, decide_eq_true_eq] at hb
+    have : Γ[n]? = some Γ[n] := by simp [hb]
+    simp only [typecheckU, UTree.sqlType, this, Option.getD_some]; exact ⟨_, rfl⟩
+  | and l r ihl ihr =>
+    simp only [UTree.bound, Bool.and_eq_true] at hb
+    simp only [UTree.notOverNull, Bool.or_eq_false_iff] at hn
+    obtain ⟨tl, hl⟩ := ihl hb.1 hn.1
+    obtain ⟨tr, hr⟩ := ihr hb.2 hn.2
+    simp only [typecheckU, UTree.sqlType, hl, hr]; exact ⟨_, rfl⟩
+  | or l r ihl ihr =>
+    simp only [UTree.bound, Bool.and_eq_true] at hb
+    simp only [UTree.notOverNull, Bool.or_eq_false_iff] at hn
+    obtain ⟨tl, hl⟩ := ihl hb.1 hn.1
+    obtain ⟨tr, hr⟩ := ihr hb.2 hn.2
+    simp only [typecheckU, UTree.sqlType, hl, hr]; exact ⟨_, rfl⟩
+  | not a iha =>
+    simp only [UTree.bound] at hb
+    simp only [UTree.notOverNull, Bool.or_eq_false_iff, beq_eq_false_iff_ne, ne_eq] at hn
+    obtain ⟨ta, ha⟩ := iha hb hn.1
+    cases hty : a.sqlType Γ with
+    | n => exact absurd hty hn.2
+    | b => rw [hty] at ha; simp only [typecheckU, UTree.sqlType, ha, hty]; exact ⟨_, rfl⟩
+    | bn => rw [hty] at ha; simp only [typecheckU, UTree.sqlType, ha, hty]; exact ⟨_, rfl⟩
+  | isNull a iha =>
+    simp only [UTree.bound] at hb
+    simp only [UTree.notOverNull] at hn
+    obtain ⟨ta, ha⟩ := iha hb hn
+    simp only [typecheckU, UTree.sqlType, ha]; exact ⟨_, rfl⟩
+  | isNotNull a iha =>
+    simp only [UTree.bound] at hb
+    simp only [UTree.notOverNull] at hn
+    obtain ⟨ta, ha⟩ := iha hb hn
+    simp only [typecheckU, UTree.sqlType, ha]; exact ⟨_, rfl⟩
+
+/-- the same rejection for ordering comparisons with a NULL-typed operand; `=` / `!=` accept it -/
+theorem cmp_null_operand_rejected :
+    typecheckCmp .lt .i .n = none ∧ typecheckCmp .ge .n .ni = none ∧
+    typecheckCmp .eq .i .n = some .bn ∧ typecheckCmp .ne .n .ni = some .bn ∧ typecheckCmp .lt .n .n = some .bn := by
+  decide
+
 /-! ## Comparisons as the typechecker types them -/
 
 theorem cmpOp_strict (op : CmpOp) : strictOf op.name 0 = some true := by
